@@ -163,7 +163,7 @@ var (
 	clVersions  = []string{"not-one-installed-version", "mgmt-panic", "invalid-text-accepted"}
 	// two in-flight requests on one engine instance see each other's injected data / observer
 	clShared    = []string{"foreign-request-data", "stray-event", "unscheduled-rule-ran", "ran-more-than-once"}
-	clCapacity  = []string{"more-than-max-in-flight", "request-did-not-wait", "pool-capacity-lost"}
+	clCapacity  = []string{"more-than-max-in-flight", "request-did-not-wait", "pool-capacity-lost", "mgmt-panic"}
 	clIsolation = []string{"foreign-request-data", "stale-injected-key-visible", "result-map-modified-after-return", "request-data-modified-after-return",
 		"stray-event", "unscheduled-rule-ran", "event-after-return", "result-map"}
 )
@@ -202,6 +202,40 @@ func runC19(plan, sched *simrt.Source, trace bool) *RunOut {
 	return c19Scenarios[plan.Intn(len(c19Scenarios))](plan, sched, trace)
 }
 
+// OracleContainOnly keeps the clauses that do not depend on which rule set a request ran against
+// (used when admins change the rules while requests run).
+func OracleContainOnly(w *W2Run) []Violation {
+	var out []Violation
+	for _, v := range CheckPoolCalls(w) {
+		switch v.Clause {
+		case "api-panic", "event-after-return", "stray-event":
+			out = append(out, v)
+		}
+	}
+	for ai, ops := range w.Ops {
+		for k, op := range ops {
+			if r := w.OpRes[ai][k]; r.Panicked != "" {
+				out = append(out, Violation{Clause: "api-panic", Detail: "management/" + opKindNames[op.Kind], Msg: "management operation " + op.String() + " panicked: " + firstLine(r.Panicked)})
+			}
+		}
+	}
+	return out
+}
+
+// c09 adds to the mixed engine/pool workload a pool scenario in which management calls run
+// concurrently with faulty requests: nothing may panic, deadlock or hang there either.
+func c09(p *Profile) func(plan, sched *simrt.Source, trace bool) *RunOut {
+	base := mixed(p)
+	adm := &W2Opt{Prof: p, Methods: cat(p.Methods, []int{MPoolEMMulti, MPoolSelEM}), MaxClients: 5, MaxReqs: 4, Admins: 2, MaxMgmt: 3,
+		MgmtKinds: []int{OpFull, OpIncr, OpRemove, OpClear, OpSetEM}, InvalidPct: 15, NilTagPct: 10, FinalProbe: true, Restore: true, Oracle: OracleContainOnly}
+	return func(plan, sched *simrt.Source, trace bool) *RunOut {
+		if plan.Intn(5) == 4 {
+			return RunW2(adm, plan, sched, trace)
+		}
+		return base(plan, sched, trace)
+	}
+}
+
 func w1(p *Profile) func(plan, sched *simrt.Source, trace bool) *RunOut {
 	return func(plan, sched *simrt.Source, trace bool) *RunOut { return RunW1(p, plan, sched, trace) }
 }
@@ -214,14 +248,15 @@ func register(p *PropDef) { Props[p.ID] = p }
 func init() {
 	register(&PropDef{ID: "C04", Run: mixed(ProfC04), Clauses: set(clSpec, clContain)})
 	register(&PropDef{ID: "C05", Run: mixed(ProfC05), Clauses: set(clSpec, clContain)})
-	register(&PropDef{ID: "C09", Run: mixed(ProfC09), Clauses: set(clSpec, clContain)})
+	register(&PropDef{ID: "C09", Run: c09(ProfC09), Clauses: set(clSpec, clContain)})
 	register(&PropDef{ID: "C11", Run: mixed(ProfC11), Clauses: set(clResult, clContain)})
 	register(&PropDef{ID: "C12", Run: mixed(ProfC12), Clauses: set(clSpec, clContain)})
 	register(&PropDef{ID: "C13", Run: mixed(ProfC13), Clauses: set(clSpec, clContain)})
 	register(&PropDef{ID: "C14", Run: mixed(ProfC14), Clauses: set(clSpec, clContain)})
 	register(&PropDef{ID: "C15", Run: mixed(ProfC15), Clauses: set(clLocals, clContain)})
 	register(&PropDef{ID: "C17", Clauses: set(clCapacity, clContain, clShared), Run: w2(&W2Opt{Prof: ProfC17, Methods: allEngineMethods, MaxClients: 6, MaxReqs: 4,
-		FinalProbe: true, WaiterRound: true, NilTagPct: 40, Oracle: OracleC17})})
+		FinalProbe: true, WaiterRound: true, NilTagPct: 40, Admins: 1, MaxMgmt: 3, MgmtKinds: []int{OpClear, OpClear, OpFull, OpIncr}, InvalidPct: 10, Restore: true,
+		Oracle: OracleC17})})
 	register(&PropDef{ID: "C06", Clauses: set(clIsolation, clContain), Run: w2(&W2Opt{Prof: ProfC06, Methods: allEngineMethods, MaxClients: 5, MaxReqs: 5,
 		OptPct: 50, Oracle: OracleC06})})
 	register(&PropDef{ID: "C07", Clauses: set(clVersions, clContain), Run: w2(&W2Opt{Prof: ProfC07, Methods: cat(allEngineMethods, []int{MPoolEMMulti, MPoolSelEM}), MaxClients: 4, MaxReqs: 4,
